@@ -507,7 +507,7 @@ def main(argv=None):
     # ---- generated search
     budgets = getattr(mod, 'BUDGETS', {})
     nshards = args.shards or budgets.get(args.tier, {}).get('shards') or (8 if args.tier == 'quick' else 16)
-    cap = budgets.get(args.tier, {}).get('cap_s') or (900 if args.tier == 'quick' else 7200)
+    cap = budgets.get(args.tier, {}).get('cap_s') or (3600 if args.tier == 'quick' else 14400)
     results, errs = _fork_shards(mod, args.tier, seed_value, nshards, known_keys, only,
                                  args.scale, cap)
     harness_errors += errs
